@@ -32,6 +32,8 @@ def family(name):
                 out.append(spaces.C('Not', None, [m]))
                 out.append(spaces.C('Imply', None, [m, z]))
         return tuple(out)
+    if parts[0] == 'illdef':
+        return tuple(_illdef())
     if parts[0] == 'empty':
         return tuple(_empty())
     if parts[0] == 'atmostneg':
@@ -225,4 +227,23 @@ def _empty():
                 for v2 in (-1, 0, 1, 2):
                     out.append(N("A", s2, v2, [E, L("a")]))
                     out.append(N("A", s2, v2, [E, N("B", 1, 1, [L("a"), L("b")])]))
+    return out
+
+
+def _illdef():
+    """One id with two different definitions below different parents (differing only in sign over a box symmetric around 0; in the value
+    -1 / -2; in bounds of equal hash sum).  errors() rejects all of them on the unchanged tree (they are then skipped and counted); a library
+    that accepts one has declared it valid, and the checks apply."""
+    t, a, b, x, y = spaces.leaf('t'), spaces.leaf('a'), spaces.leaf('b'), L('x'), L('y')
+    u1, u2 = L('u', 0, 3), L('u', 1, 2)
+    pairs = [(N("B", 1, 1, [t]), N("B", -1, 1, [t])), (N("B", 1, 0, [t]), N("B", -1, 0, [t])),
+             (N("B", -1, -1, [a, b]), N("B", -1, -2, [a, b])), (N("B", 1, 2, [u1]), N("B", 1, 2, [u2])),
+             (N("B", 1, 1, [a, b]), N("B", 1, 1, [a, t]))]
+    out = []
+    for B1, B2 in pairs:
+        for (s1, v1), (s2, v2) in (((1, 1), (1, 1)), ((1, 2), (1, 1)), ((1, 1), (-1, 0))):
+            X = N("X", s1, v1, [B1, x])
+            Y = N("Y", s2, v2, [B2, y])
+            for st, vt in ((1, 1), (1, 2), (-1, -1)):
+                out.append(N("T", st, vt, [X, Y]))
     return out
